@@ -173,6 +173,9 @@ type wTx struct{ tx driver.Tx }
 
 func (t *wTx) Commit() error {
 	if err := Wrap.before("commit", "COMMIT"); err != nil {
+		// a transient COMMIT failure is SQLITE_BUSY; the real driver then rolls the transaction
+		// back itself because database/sql regards it as finished (go-sqlite3 SQLiteTx.Commit)
+		t.tx.Rollback()
 		return err
 	}
 	err := t.tx.Commit()
